@@ -100,7 +100,8 @@ fn init_process(db_path: &Path) {
             brc20_prog_rpc_server_enable_auth: false,
             brc20_prog_rpc_server_user: None,
             brc20_prog_rpc_server_password: None,
-            evm_record_traces: true,
+            // a replica that does not record traces (C02: everything but the trace answers must agree)
+            evm_record_traces: std::env::var("HX_TRACES_OFF").is_err(),
             evm_call_gas_limit: CALL_GAS_LIMIT,
             // nothing listens there: "connection refused" at once, never a DNS lookup or a hang
             bitcoin_rpc_url: "http://127.0.0.1:9".to_string(),
@@ -1929,6 +1930,8 @@ pub fn gen_reads(rng: &mut Rng, u: &Universe, height: Option<u64>, n: usize) -> 
         };
         let block = match rng.below(6) { 0 => Some("latest".to_string()), 1 => Some(hexn(rng.below(h + 2))), 2 => Some("pending".to_string()), _ => None };
         let op = match rng.below(22) {
+            // a single simulated call that the EVM refuses before running it (an Err of the simulation, not a revert)
+            0 if rng.chance(1, 2) => { let c = hard_error_call(rng, &from, &tool); Op::EthCall { from: c.from, to: c.to, data: c.data, block } }
             0..=3 => Op::EthCall { from, to: tool.clone(), data: Hx(mutating), block },
             4 => Op::EthCall { from, to: None, data: Hx(multitool_init()), block },
             5 | 6 => {
@@ -1950,7 +1953,12 @@ pub fn gen_reads(rng: &mut Rng, u: &Universe, height: Option<u64>, n: usize) -> 
                 };
                 Op::EthCallMany { calls, block, op_return_tx_ids: ids }
             }
-            7 => Op::EstimateGas { from, to: tool.clone(), data: Hx(if rng.chance(1, 2) { cd::sstore(U256::from(1), U256::from(7)) } else { cd::context() }), block },
+            7 => match rng.below(4) {
+                // refused by the EVM outright / a bisection probe below the intrinsic (floor) cost of a long calldata
+                0 => { let c = hard_error_call(rng, &from, &tool); Op::EstimateGas { from: c.from, to: c.to, data: c.data, block } }
+                1 => Op::EstimateGas { from, to: tool.clone(), data: Hx(vec![0xAB; 1500 + rng.below(1500) as usize]), block },
+                _ => Op::EstimateGas { from, to: tool.clone(), data: Hx(if rng.chance(1, 2) { cd::sstore(U256::from(1), U256::from(7)) } else { cd::context() }), block },
+            },
             8 => {
                 let mut calls = vec![CallSpec { from: from.clone(), to: tool.clone(), data: Hx(cd::sstore(U256::from(2), U256::from(7))) }, CallSpec { from: from.clone(), to: tool.clone(), data: Hx(cd::create()) }];
                 if rng.chance(1, 3) { calls.push(hard_error_call(rng, &from, &tool)); }
